@@ -177,19 +177,19 @@ type knownBlock struct {
 // nodeView is what the monitor knows about one correct node: only what was
 // delivered to the node's loop (its trace), never the node's own data structures.
 type nodeView struct {
-	tallies   map[hrt]*Tally
-	parts     map[uint64]map[string]map[uint32]*types.Part // height -> parts root -> index -> part
-	blocks    map[string]*knownBlock                        // block-id key -> complete block
-	byHash    map[common.Hash]*knownBlock
-	signed    map[hrt]string
-	signedTS  map[hrt]int
-	proposed  map[hrt]string
-	lockBID   string // last precommitted non-nil block of the current height
-	lockRound uint32
-	lockH     uint64
-	states    map[uint64]*cstate.LatestBlockState // consensus state the node had when working on height h
-	appHash   map[uint64]common.Hash
-	incarn    int
+	tallies          map[hrt]*Tally
+	parts            map[uint64]map[string]map[uint32]*types.Part // height -> parts root -> index -> part
+	blocks           map[string]*knownBlock                       // block-id key -> complete block
+	byHash           map[common.Hash]*knownBlock
+	signed           map[hrt]string
+	signedTS         map[hrt]int
+	proposed         map[hrt]string
+	lockBID          string // last precommitted non-nil block of the current height
+	lockRound        uint32
+	lockH            uint64
+	states           map[uint64]*cstate.LatestBlockState // consensus state the node had when working on height h
+	appHash          map[uint64]common.Hash
+	incarn           int
 	restartSinceLock bool // the node was restarted after it last precommitted a block (and is still in that height)
 }
 
